@@ -205,6 +205,18 @@ func (ins *instrumenter) post(s ast.Stmt) []ast.Stmt {
 		return nil
 	case *ast.ReturnStmt, *ast.BranchStmt, *ast.SwitchStmt, *ast.TypeSwitchStmt, *ast.ForStmt:
 		return nil // no place for it (the replay may lose alignment here)
+	case *ast.ExprStmt:
+		// `c.Wait()` on a *sync.Cond: the executor re-acquires c.L in a step of its own when the
+		// woken goroutine's turn comes (others may take the lock in between); natively Wait
+		// returns with the lock held, so the replay hands it back until that turn: verifSPRelock
+		if call, ok := s.X.(*ast.CallExpr); ok {
+			if sel, ok := call.Fun.(*ast.SelectorExpr); ok {
+				if fn, ok := ins.info.Uses[sel.Sel].(*types.Func); ok && fn.FullName() == "(*sync.Cond).Wait" {
+					return []ast.Stmt{&ast.ExprStmt{X: &ast.CallExpr{Fun: ast.NewIdent("verifSPRelock"),
+						Args: []ast.Expr{&ast.SelectorExpr{X: sel.X, Sel: ast.NewIdent("L")}}}}}
+				}
+			}
+		}
 	}
 	return []ast.Stmt{spStmt()}
 }
@@ -385,6 +397,12 @@ func verifSP() {
 	if VerifSPHook != nil {
 		VerifSPHook()
 	}
+}
+func verifSPRelock(l interface {
+	Lock()
+	Unlock()
+}) {
+	verifSP()
 }
 func verifSpawn() int {
 	if VerifSpawnHook != nil {
